@@ -410,3 +410,102 @@ def c13(ctx, replay):
                     "parentheses; non-trivial = distinct chains with >=2 operators",
                assumptions=["values outside exact arithmetic (fractional exponents, magnitudes beyond 3e4) are 'open': any result accepted",
                             "known finding C13/equal-prec-right is recognised through the deviation constant EqualPrecRight"])
+
+
+# ---------------------------------------------------------------------------------------------
+# families observed through a test mapped into cmd/docker-logql with `go test -overlay` (package main)
+
+OVERLAY_FILES = {"zz_trace_test.go": "harness/trace.go", "zz_probe_test.go": "harness/cmdprobe/probe_test.go",
+                 "zz_fakedocker_test.go": "harness/fakedocker.go"}
+
+
+def run_probe(ctx, mode, cases, out, nrand):
+    import subprocess
+    ov = ctx.path("overlay-%s.json" % mode)
+    with open(ov, "w") as f:
+        json.dump({"Replace": {os.path.join(V.REPO, "cmd/docker-logql", k): os.path.join(V.VERIF, v) for k, v in OVERLAY_FILES.items()}}, f)
+    e = dict(os.environ, **V.GOENV, VERIF_TRACE=out, VERIF_CASES=cases or "", VERIF_RAND=str(nrand), VERIF_SEED=str(ctx.seed),
+             VERIF_MODE=mode, TZ="UTC", NO_COLOR="")
+    p = subprocess.run(["go", "test", "-vet=off", "-count=1", "-overlay", ov, "-run", "TestVerifProbe", "-timeout", "30m", "./cmd/docker-logql"],
+                       cwd=V.REPO, env=e, stdout=subprocess.PIPE, stderr=subprocess.STDOUT, text=True)
+    if p.returncode != 0:
+        raise V.MachineryError("overlay probe failed (does cmd/docker-logql still compile?):\n" + p.stdout[-3000:])
+    V.log("[run] overlay probe mode=%s: %s" % (mode, p.stdout.strip().splitlines()[0] if p.stdout.strip() else ""))
+
+
+def std_probe(ctx, pid, *, mc, mode, trace_module, nrand, replay, rule, assumptions, nontrivial=None, chunk_events=20000):
+    trace = ctx.path("trace.ndjson")
+    ncases = 0
+    if replay:
+        run_probe(ctx, mode, os.path.abspath(replay), trace, 0)
+    else:
+        cases = ctx.path("cases.ndjson")
+        with open(cases, "w") as allf:
+            for m in mc:
+                cfile = ctx.path("cases-%s.ndjson" % m["name"]) if m.get("export", True) else None
+                V.model_check(ctx, m["name"], m["module"], m["consts"], invariants=m.get("invariants", ()), properties=m.get("properties", ()),
+                              cases_file=cfile, workers=m.get("workers", 16), timeout=m.get("timeout", 3600))
+                if cfile:
+                    for line in open(cfile):
+                        allf.write(line)
+                        ncases += 1
+        run_probe(ctx, mode, cases, trace, nrand)
+    bad, scns, nev = V.validate_trace(ctx, trace_module, trace, chunk_events=chunk_events)
+
+    def reexec(cf_, tf):
+        run_probe(ctx, mode, cf_, tf, 0)
+    verdict = V.classify_rejections(ctx, pid, trace_module, None, None, bad, scns, reexec=reexec)
+    cov = dict(traces_validated_against_impl=len(scns) - len(bad), evaluations=len(scns), events=nev, cases_from_model=ncases,
+               cases_random=len(scns) - ncases if not replay else 0, distinct_nontrivial=nontrivial(scns) if nontrivial else len(scns),
+               rule=rule, samples=V.sample_scenarios(scns), exhaustive=True, rejected_scenarios=len(bad))
+    return V.finish(ctx, pid, verdict, cov, assumptions)
+
+
+@prop("C16")
+def c16(ctx, replay):
+    inv = ["ResolveMatches", "SpellingsAgree", "MalformedRejected", "StepPositive"]
+    mcs = [dict(name="resolve", module="MC_Resolve", consts=dict(Pools=V.tla_str(T(ctx, "quick", "full"))), invariants=inv)]
+
+    def nontrivial(scns):
+        seen = set()
+        for sid, lines in scns:
+            i = json.loads(lines[0])["in"]
+            if any(i["has"]):
+                seen.add(lines[0])
+        return len(seen)
+    return std_probe(ctx, "C16", mc=mcs, mode="time", trace_module="Trace_CLI", nrand=T(ctx, 4000, 60000), replay=replay, nontrivial=nontrivial,
+                     rule="step 1: parseTimeRange step by step (since, end, end-or-now, start) vs the declarative Resolve, spelling "
+                          "agreement of unix seconds / nanoseconds / fractional seconds (instants as <<hi, lo, ns>> because 2001-2200 "
+                          "exceeds 32 bits; grid on the 9/10-digit and 2^31 boundaries), all 16 presence patterns, durations, every class "
+                          "of malformed value, StepDenote/DefaultStep; each case + seeded random ones (random instants 2001-2200 in four "
+                          "spellings, end before/after now, good and malformed since/step) run through the real parseTimeRange / parseStep "
+                          "via a test mapped into cmd/docker-logql with -overlay (now injected); non-trivial = distinct cases with at least "
+                          "one flag present",
+                     assumptions=["RFC3339 text is rendered by time.Format from the intended instant (trusted)",
+                                  "fractional seconds are written with exactly three digits (finer digits left open); exponent spellings left open",
+                                  "an empty flag value counts as absent"])
+
+
+@prop("C15")
+def c15(ctx, replay):
+    inv = ["PaletteIndexInRange", "OutputParses", "ColoursArePalette", "NoEscapeWithoutColour"]
+    q = V.tla_str
+    mcs = [dict(name="render-entries", module="MC_Render", consts=dict(MaxCtr=2, MaxEntries=T(ctx, 2, 3), Mode=q("entries")), invariants=inv),
+           dict(name="render-many", module="MC_Render", consts=dict(MaxCtr=T(ctx, 20, 40), MaxEntries=0, Mode=q("many")), invariants=inv)]
+
+    def nontrivial(scns):
+        seen = set()
+        for sid, lines in scns:
+            i = json.loads(lines[0])["in"]
+            if sum(len(s["entries"]) for s in i["streams"]) >= 2 or len(i["streams"]) > 7:
+                seen.add(lines[0])
+        return len(seen)
+    return std_probe(ctx, "C15", mc=mcs, mode="render", trace_module="Trace_Render", nrand=T(ctx, 2500, 40000), replay=replay, nontrivial=nontrivial,
+                     rule="step 1: renderResult as colour assignment + flatten, sort by timestamp, format; palette index inside the table for "
+                          "0..20 (quick) / 0..40 (thorough) containers, output parses as one line per entry in time order with consistent "
+                          "palette colours (CanParse) for <=2 containers x <=2-3 entries (timestamp ties, messages with embedded / trailing "
+                          "CR LF, empty) x 8 option combinations; every case + seeded random results (<=30 containers, missing container "
+                          "label, arbitrary message bytes incl. ESC) are rendered by the real renderResult through an overlay test and TLC "
+                          "parses the produced bytes; non-trivial = distinct results with >=2 entries or more than 7 containers",
+                     assumptions=["the RFC3339Nano text of each distinct timestamp is supplied by time.Format (trusted) with TZ=UTC",
+                                  "order of equal timestamps and which palette colour a container gets are left open"])
